@@ -119,6 +119,25 @@ def jsonDenotes (f : LFrame) (out : Bytes) : Option String :=
     | none => none
   | some _ => some "top level value is not an array"
 
+/-- C16 on the ToJSON path: every finite float cell is written as the shortest positional decimal that round-trips
+(`none` = all are; only meaningful when `jsonDenotes` accepted the text). -/
+def jsonFloatsShortest (f : LFrame) (out : Bytes) : Option String :=
+  match Json.parse out with
+  | some (.arr objs) =>
+    let bad := (List.range f.n).findSome? (fun r =>
+      match (objs[r]? : Option Json.JVal) with
+      | some (Json.JVal.obj kvs) =>
+        (List.range f.cols.length).findSome? (fun j =>
+          match f.cols[j]!.cells[r]!, (kvs[j]? : Option (List UInt8 × Json.JVal)) with
+          | Cell.float b, some (_, Json.JVal.num t) =>
+            if F64.isNaN b || (b &&& 0x7fffffffffffffff) == 0x7ff0000000000000 then none
+            else if Num.isShortestRoundTrip b t then none
+            else some s!"row {r} column {j}: float {b} written as {repr (String.fromUTF8! (ByteArray.mk t.toArray))}, not the shortest positional decimal that round-trips"
+          | _, _ => none)
+      | _ => none)
+    bad
+  | _ => none
+
 /-- What ReadJSON (column order and enum values supplied) must return: ints come back as equal-valued floats. -/
 def jsonReread (f : LFrame) : LFrame :=
   { f with cols := f.cols.map (fun c =>
